@@ -38,6 +38,16 @@ COPY_OPS = {"copy_default", "copy_deep", "deepcopy"}
 REDUCERS = {"mean", "sum", "max", "min", "std", "var", "median", "prod", "count"}
 
 _ENV = {}
+# dataset-level operation -> the array-level operation whose effect it has (filled from TLC's output: UxOps!DsBase)
+BASE = {}
+
+
+def base(op):
+    return BASE.get(op, op)
+
+
+def _ds(x):
+    return x.to_dataset(name="v")
 
 
 def build_grid(name):
@@ -97,6 +107,8 @@ def apply(op, d, x, dest=None):
     import xarray as xr
 
     g = grid_dim(x)
+    if op.startswith("ds_"):
+        return apply_ds(op, d, x, g, dest)
     # ---- elementwise
     if op == "add_scalar": return x + 1
     if op == "radd_scalar": return 1 + x
@@ -231,6 +243,51 @@ def apply(op, d, x, dest=None):
     if op == "isel_grid_kw": return x.isel(**{g: [0, 1] if x.sizes[g] >= 3 else [0]})
     if op == "subset_nn":
         return x.subset.nearest_neighbor((10.0, 20.0), k=2 if x.sizes[g] >= 3 else 1, element=ELEMENT[g])
+    raise KeyError(op)
+
+
+def apply_ds(op, d, x, g, dest):
+    """The operation applied to a dataset holding x as variable "v"; the variable taken out again."""
+    import xarray as xr
+
+    ds = _ds(x)
+    if op == "ds_getitem": return ds["v"]
+    if op == "ds_attr": return ds.v
+    if op == "ds_data_vars": return ds.data_vars["v"]
+    if op == "ds_assign": return ds.assign(w=ds["v"] * 2)["w"]
+    if op == "ds_rename_var": return ds.rename({"v": "w"})["w"]
+    if op == "ds_setitem":
+        ds["w"] = ds["v"] + 1
+        return ds["w"]
+    if op == "ds_add_ds": return (ds + ds)["v"]
+    if op == "ds_mul_scalar": return (ds * 2)["v"]
+    if op == "ds_neg": return (-ds)["v"]
+    if op == "ds_np_sin": return np.sin(ds)["v"]
+    if op == "ds_where": return ds.where(ds["v"] > 5)["v"]
+    if op == "ds_fillna": return ds.fillna(0.0)["v"]
+    if op == "ds_astype": return ds.astype("float32")["v"]
+    if op == "ds_map": return ds.map(lambda a: a * 2)["v"]
+    if op == "ds_copy_shallow": return ds.copy(deep=False)["v"]
+    if op == "ds_to_array": return ds.to_array().squeeze("variable", drop=True)
+    if op == "ds_cumsum": return ds.cumsum(d)["v"]
+    if op == "ds_isel_kw": return ds.isel(**{d: 0})["v"]
+    if op == "ds_isel_dict": return ds.isel({d: 0})["v"]
+    if op == "ds_sel": return ds.sel(**{d: x[d].values[0]})["v"]
+    if op == "ds_mean": return ds.mean(d)["v"]
+    if op == "ds_squeeze": return ds.squeeze(d)["v"]
+    if op == "ds_isel_slice": return ds.isel(**{d: slice(0, 2)})["v"]
+    if op == "ds_diff": return ds.diff(d)["v"]
+    if op == "ds_concat": return xr.concat([ds, ds], dim=d)["v"]
+    if op == "ds_head": return ds.head(**{d: 2})["v"]
+    if op == "ds_expand_dims_run": return ds.expand_dims("run")["v"]
+    if op == "ds_transpose_rev": return ds.transpose(*reversed(x.dims))["v"]
+    if op == "ds_mean_grid": return ds.mean(g)["v"]
+    if op == "ds_copy_deep": return ds.copy(deep=True)["v"]
+    if op == "ds_get_dual": return ds.get_dual()["v"]
+    if op == "ds_remap_nn_face": return ds.remap.nearest_neighbor(dest, remap_to="face centers")["v"]
+    if op == "ds_isel_grid_kw": return ds.isel(**{g: [0, 1] if x.sizes[g] >= 3 else [0]})["v"]
+    if op == "ds_isel_grid_step": return ds.isel(**{g: STEP})["v"]
+    if op == "ds_head_grid": return ds.head(**{g: 2})["v"]
     raise KeyError(op)
 
 
